@@ -6,10 +6,10 @@
 
       C11_safe : ∀ f dev bytes st, safe (decode f dev bytes st)        (safe = neither `ub _ _` nor `hang _`)
 
-  is still FALSE for the current code at three kinds of site (short row reads accepted, the `int` pitch of the BMP
-  scanline reader, palette indices beyond the declared entries silently read as black). Below: machine-checked witnesses
+  is still FALSE for the current code at two sites (BMP palette indices beyond the declared entries silently read as
+  black; the `int` image size of the TARGA RLE reader). Below: machine-checked witnesses
   (`*_witness`, `decide`, each also replayed on the real readers under ASan/UBSan by the harness:
-  checks/C11_witnesses.json), the negation of the full statement per format, regression theorems for the ten defects
+  checks/C11_witnesses.json), the negation of the full statement per format, regression theorems for the defects
   fixed in /repo during this work (their former witnesses now decode to an exception or to a correct image), and what
   is proven for ALL inputs: the fuel bounds of every loop that is not bounded by a counter, and the safety of
   read_image_info for the three formats on both devices.
@@ -42,61 +42,40 @@ def safe : Outcome → Bool
   | _ => false
 
 /-! ## witnesses: where the current code still violates the property -/
-/-- 2x2 24-bit BMP without its last 3 bytes through FILE*: the short row read is accepted, stale bytes become pixels -/
-theorem C11_short_row_read_witness :
-    ubSite (decode .bmp .file (bytesOfHex 0x424d460000000000000036000000280000000200000002000000010018000000000000000000130b0000130b0000000000000000000001020304050600000708090a0b 67 [])
-      { entry := .image, dst := .rgb8, x0 := 0, y0 := 0, dw := 0, dh := 0, vw := 0, vh := 0 }) = some "inconsistent-data-accepted" := by
-  decide +kernel
 
-/-- `P5 2 2 255` followed by 3 of its 4 bytes: read_image reports success -/
-theorem C11_pnm_short_row_read_witness :
-    ubSite (decode .pnm .file (bytesOfHex 0x50350a3220320a3235350a010203 14 [])
-      { entry := .image, dst := .gray8, x0 := 0, y0 := 0, dw := 0, dh := 0, vw := 0, vh := 0 }) = some "inconsistent-data-accepted" := by
-  decide +kernel
-
-/-- raw 2x2 24-bit TARGA cut after its first row: read_image reports success -/
-theorem C11_targa_short_row_read_witness :
-    ubSite (decode .tga .file (bytesOfHex 0x000002000000000000000000020002001800010203040506 24 [])
-      { entry := .image, dst := .rgb8, x0 := 0, y0 := 0, dw := 0, dh := 0, vw := 0, vh := 0 }) = some "inconsistent-data-accepted" := by
-  decide +kernel
-
-/-- 24-bit BMP with width 0x7FFFFFFF through the scanline reader: `_info._width * 3` overflows int -/
-theorem C11_bmp_pitch_overflow_witness :
-    ubSite (decode .bmp .file (bytesOfHex 0x424d46000000000000003600000028000000ffffff7f02000000010018000000000000000000130b0000130b0000000000000000000001020304050600000708090a0b0c0000 70 [])
-      { entry := .scan, dst := .none, x0 := 0, y0 := 0, dw := 0, dh := 0, vw := 0, vh := 0 }) = some "signed-integer-overflow@extension/io/bmp/detail/scanline_read.hpp:initialize" := by
-  decide +kernel
-
-/-- 8-bit BMP declaring 2 palette entries, pixel value 200: no longer out of bounds, but read as black from the padding instead of being reported (the residual of C11-bmp-palette-index-unchecked) -/
+/-- 8-bit BMP declaring 2 palette entries, pixel value 200: no longer out of bounds (d528079), but read as black from the
+    padding instead of being reported (the residual of C11-bmp-palette-index-unchecked) -/
 theorem C11_bmp_palette_index_padded_witness :
     ubSite (decode .bmp .file (bytesOfHex 0x424d42000000000000003e000000280000000200000001000000010008000000000000000000130b0000130b000002000000000000001e140a003c32280000c80000 66 [])
       { entry := .image, dst := .rgba8, x0 := 0, y0 := 0, dw := 0, dh := 0, vw := 0, vh := 0 }) = some "inconsistent-data-accepted" := by
   decide +kernel
 
-/-! ## the full statement is false for each format's current reader -/
+/-- RLE TARGA declaring 65535 x 65535 pixels, read with a 1x1 sub-rectangle: `_info._width * _info._height * bytes_per_pixel`
+    is computed in int and overflows (read_rle_data) -/
+theorem C11_targa_rle_image_size_overflow_witness :
+    ubSite (decode .tga .file (bytesOfHex 0x00000a000000000000000000ffffffff180083010203 22 [])
+      { entry := .image, dst := .rgb8, x0 := 0, y0 := 0, dw := 1, dh := 1, vw := 0, vh := 0 }) = some "signed-integer-overflow@extension/io/targa/detail/read.hpp:read_rle_data" := by
+  decide +kernel
+
+/-! ## the full statement is false for the BMP and TARGA readers; for PNM no counterexample is known any more -/
 
 /-- OPEN (not provable: false today): `∀ dev bytes st, safe (decode .bmp dev bytes st)`; its negation: -/
 theorem C11_safe_bmp_false : ¬ ∀ (dev : Dev) (bytes : List UInt8) (st : Settings), safe (decode .bmp dev bytes st) = true := by
   intro h
-  have := h .file (bytesOfHex 0x424d460000000000000036000000280000000200000002000000010018000000000000000000130b0000130b0000000000000000000001020304050600000708090a0b 67 [])
-      { entry := .image, dst := .rgb8, x0 := 0, y0 := 0, dw := 0, dh := 0, vw := 0, vh := 0 }
-  revert this
-  decide +kernel
-
-/-- OPEN (false today): `∀ dev bytes st, safe (decode .pnm dev bytes st)`; its negation: -/
-theorem C11_safe_pnm_false : ¬ ∀ (dev : Dev) (bytes : List UInt8) (st : Settings), safe (decode .pnm dev bytes st) = true := by
-  intro h
-  have := h .file (bytesOfHex 0x50350a3220320a3235350a010203 14 [])
-      { entry := .image, dst := .gray8, x0 := 0, y0 := 0, dw := 0, dh := 0, vw := 0, vh := 0 }
+  have := h .file (bytesOfHex 0x424d42000000000000003e000000280000000200000001000000010008000000000000000000130b0000130b000002000000000000001e140a003c32280000c80000 66 [])
+      { entry := .image, dst := .rgba8, x0 := 0, y0 := 0, dw := 0, dh := 0, vw := 0, vh := 0 }
   revert this
   decide +kernel
 
 /-- OPEN (false today): `∀ dev bytes st, safe (decode .tga dev bytes st)`; its negation: -/
 theorem C11_safe_tga_false : ¬ ∀ (dev : Dev) (bytes : List UInt8) (st : Settings), safe (decode .tga dev bytes st) = true := by
   intro h
-  have := h .file (bytesOfHex 0x000002000000000000000000020002001800010203040506 24 [])
-      { entry := .image, dst := .rgb8, x0 := 0, y0 := 0, dw := 0, dh := 0, vw := 0, vh := 0 }
+  have := h .file (bytesOfHex 0x00000a000000000000000000ffffffff180083010203 22 [])
+      { entry := .image, dst := .rgb8, x0 := 0, y0 := 0, dw := 1, dh := 1, vw := 0, vh := 0 }
   revert this
   decide +kernel
+
+-- OPEN (not proven, no counterexample known since /repo 84ae407): ∀ dev bytes st, safe (decode .pnm dev bytes st)
 
 /-! ## defects fixed in /repo stay fixed: the former witnesses now give an exception or a correct image -/
 
@@ -164,6 +143,30 @@ theorem C11_bmp_v4_negative_height_is_error :
 theorem C11_pnm_text_row_incomplete_is_error :
     decode .pnm .file (bytesOfHex 0x50320a3220320a3235350a312032207820340a 19 [])
       { entry := .view, dst := .gray8, x0 := 0, y0 := 0, dw := 0, dh := 0, vw := 2, vh := 2 } = .err "io" := by
+  decide +kernel
+
+/-- 84ae407: 2x2 24-bit BMP without its last 3 bytes (formerly success with stale bytes as pixels) -/
+theorem C11_short_row_read_is_error :
+    decode .bmp .file (bytesOfHex 0x424d460000000000000036000000280000000200000002000000010018000000000000000000130b0000130b0000000000000000000001020304050600000708090a0b 67 [])
+      { entry := .image, dst := .rgb8, x0 := 0, y0 := 0, dw := 0, dh := 0, vw := 0, vh := 0 } = .err "io" := by
+  decide +kernel
+
+/-- 84ae407: `P5 2 2 255` followed by 3 of its 4 bytes -/
+theorem C11_pnm_short_row_read_is_error :
+    decode .pnm .file (bytesOfHex 0x50350a3220320a3235350a010203 14 [])
+      { entry := .image, dst := .gray8, x0 := 0, y0 := 0, dw := 0, dh := 0, vw := 0, vh := 0 } = .err "io" := by
+  decide +kernel
+
+/-- 84ae407: raw 2x2 24-bit TARGA cut after its first row -/
+theorem C11_targa_short_row_read_is_error :
+    decode .tga .file (bytesOfHex 0x000002000000000000000000020002001800010203040506 24 [])
+      { entry := .image, dst := .rgb8, x0 := 0, y0 := 0, dw := 0, dh := 0, vw := 0, vh := 0 } = .err "io" := by
+  decide +kernel
+
+/-- c96cb0d: 24-bit BMP with width 0x7FFFFFFF through the scanline reader (formerly `_info._width * 3` overflowed int) -/
+theorem C11_bmp_pitch_overflow_is_error :
+    decode .bmp .file (bytesOfHex 0x424d46000000000000003600000028000000ffffff7f02000000010018000000000000000000130b0000130b0000000000000000000001020304050600000708090a0b0c0000 70 [])
+      { entry := .scan, dst := .none, x0 := 0, y0 := 0, dw := 0, dh := 0, vw := 0, vh := 0 } = .err "io" := by
   decide +kernel
 
 /-! ## the models decode valid files -/
